@@ -71,7 +71,7 @@ def ob_key_grammar(tier):
 
 # ------------------------------------------------------------------------------- molecules
 ELEMENTS = ["C", "N", "O", "CL", "FE"]
-COORDS = [0.0, 1.2345, -9999.9999, 99999.9999, 99999.99996, -9999.99996, 100000.0, 12.00004]
+COORDS = [0.0, 1.2345, -9999.9999, 99999.9999, 99999.99996, -9999.99996, 100000.0, 12.00004, -9999.5, 99999.5, -1000.25]
 BTYPES = [1, 2, 3, 5, 6, 0, 4, 7]      # SINGLE DOUBLE TRIPLE AROM_S AROM_D ANY QUAD AROM_T (filtered by what the writer's table can express)
 
 
